@@ -2,6 +2,7 @@
 C14 — the 24 rotations of the hexahedron from the coordinates of its corners; signature of a cuboid.
 -/
 import CBV.Lemmas.C14Renum
+import CBV.Gen.TC14
 
 namespace CBV.C14
 open CBV
